@@ -448,6 +448,11 @@ Definition check_e2e_case (c : e2e_case) : list (string * bool) :=
     ("prop.c04.optype", forallb (fun r => if or_is_lookup r then opkind_eqb (or_keyword r) OQuery && String.eqb (or_optype r) "query"
                                           else opkind_eqb (or_keyword r) (o_kind (ec_op c)) &&
                                                String.eqb (or_optype r) (match o_kind (ec_op c) with OMutation => "mutation" | _ => "query" end)) (obs_requests c));
+    (* only fields the client selected and that survived @skip/@include: every field name a request asks for is the name of a
+       field of the client's operation that the conditions leave in *)
+    ("prop.c04.only_surviving_fields",
+       let inc := flat_map (included_names (ec_vars c)) (o_sel (ec_op c)) in
+       forallb (fun r => forallb (fun n => mem n inc) (flat_map requested_names (or_sel r))) (obs_requests c));
     ("prop.c04.ids_nodup", forallb (fun r => Nat.eqb (List.length (dedupe_str (or_ids r))) (List.length (or_ids r))) (obs_requests c));
     (* --- guards (true = the recorded defect's trigger did NOT fire) --- *)
     ("guard.nested_fragment_dup", negb (op_any_scope scope_has_nested_dup client_ss));
